@@ -71,6 +71,11 @@ PROPERTIES['C13'] = {
     _c13('remove_if', 'h_remove_if', 'remove_if(Par) == std::remove_if prefix and returned iterator', lens=[1, 2, 3, 4]),
     _c13('remove', 'h_remove', 'remove(Par) == std::remove', lens=[1, 2, 3, 4]),
     _c13('unique', 'h_unique', 'unique(Par) (CopyIfScanBody with the i/i+1 offset trick) == std::unique', lens=[1, 2, 3, 4]),
+    [dict(o, name=o['name'].replace('unique_', 'unique_chunk2_'), defs=dict(o['defs'], MANIFOLD_VERIF_UNIQUE_BUFFER=2, VF_N=5),
+          unwind={'default': o['defs']['VF_LEN'] + 1}, backends=['minisat', 'kissat'], timeout=1500, tiers=(['quick', 'thorough'] if o['defs']['VF_LEN'] == 3 else ['thorough']),
+          claim=o['claim'] + ' - with unique()\'s internal chunk size (MAX_BUFFER_SIZE, 65536 in production) lowered to 2 through the MANIFOLD_VERIF_UNIQUE_BUFFER hook, so that runs of equal values straddle chunk boundaries',
+          bounds=o['bounds'].replace('n <= 4', 'n <= 5') + '; unique chunk size hook = 2 (up to 3 chunks of the do-while loop)')
+     for o in _c13('unique', 'h_unique', 'unique(Par) == std::unique', lens=[3, 4, 5], n=5)],
     _c13('elementwise', 'h_elementwise', 'for_each/transform/copy/fill/sequence(Par): every index exactly once, nothing outside [first,last)'),
     _c13('gather_scatter', 'h_gather_scatter', 'gather/scatter(Par) through an arbitrary permutation map'),
     _c13('reduce_plus', 'h_reduce_plus', 'reduce(Par, plus, init = identity 0) == sequential fold for every reduction tree', lens=[1, 2, 3]),
@@ -129,6 +134,17 @@ PROPERTIES['C09'] = {
   'obligations': [_c09('ingest64_' + n, l, t, np) for n, l, t, np in _C09_CFG] + [
       _c09('ingest32_runs_3_2_full', (12, 12, 0, 0, 3, 2, 24, 2, 4, 0), 't', 3, entry='h_ingest32', what='MeshGL'),
       _c09('ingest32_anyprop_small', (4, 3, 1, 1, 1, 1, 12, 1, 1, 4), 'q', None, entry='h_ingest32', what='MeshGL'),
+    ] + [
+      dict(_c09('handoff%s_%s' % (bits, n), l, t, np, entry='h_ingest%s' % bits, what='MeshGL64' if bits == '64' else 'MeshGL'),
+           cuts=[], defs=dict(_c09('x', l, t, np)['defs'], VF_HANDOFF=1), redirect=dict(_INGEST_REDIR, **{'_ZN8manifold8Manifold4Impl15CreateHalfedges.*': 'vf_stub_CreateHalfedges'}),
+           claim='Impl::Impl(%s) SUCCESS path, lengths %s, numProp %s: the state handed to CreateHalfedges satisfies the contract the rest of the library relies on without re-validating: one TriRef per kept triangle with a registered meshID, numProp_ property values per vertex, all triangle indices < NumVert, and a run is marked hasNormals ONLY when there are >= 3 property channels (GetMeshGL / Transform treat slots 0..2 as a vector then)' % ('MeshGL64' if bits == '64' else 'MeshGL', l, ('= %s' % np) if np is not None else 'ARBITRARY'))
+      for bits, n, l, t, np in (
+        ('64', 'numprop4_flags', (16, 12, 0, 0, 0, 1, 0, 1, 0, 0), 'q', 4),
+        ('32', 'numprop4_flags', (16, 12, 0, 0, 0, 1, 0, 1, 0, 0), 'q', 4),
+        ('64', 'numprop4_runs2', (16, 12, 0, 0, 3, 2, 24, 2, 4, 0), 't', 4),
+        ('64', 'anyprop_flags', (16, 12, 0, 0, 0, 1, 0, 1, 0, 0), 't', None),
+        ('64', 'runs_3_2_full', (12, 12, 0, 0, 3, 2, 24, 2, 4, 0), 't', 3))
+    ] + [
       dict(name='makeempty', harness='c09_ingest.cpp', entry='h_makeempty', defs={'VF_REAL_MAKEEMPTY': 1, 'VF_LENS': '0,0,0,0,0,0,0,0,0,0'}, models=['rbtree.h'], unwind={'default': 7, 'Rb_tree': 3}, recursion={'default': 2}, backends=['minisat'], timeout=900, object_bits=12, mem_gb=16,
            claim='Impl::MakeEmpty(status) from an arbitrary small Impl: status set, every container emptied, relation map cleared (the ladder obligations replace MakeEmpty by a recording stub and rely on this)', bounds='2 vertices, 2 triangles, optional relation entry, every Error value', targets=['impl.cpp Manifold::Impl::MakeEmpty'])],
 }
@@ -383,6 +399,29 @@ PROPERTIES['C18'] = {
          claim='Impl::IsIndexInBounds(triVerts) <=> every index in [0, NumVert); NumTri/NumEdge/NumVert/NumPropVert/IsEmpty follow the array sizes', bounds='2 triangles, all int indices', targets=['properties.cpp Impl::IsIndexInBounds', 'impl.h counting accessors']),
   ],
 }
+PROPERTIES['C14']['obligations'] += [
+    dict(name='tree2d_query_n%d' % n, harness='c14_tree2d.cpp', entry='h_query', defs={'VF_N': n},
+         unwind={'auto': True, 'start': 3, 'max': 80, 'rounds': 24}, recursion={'default': 4}, backends=['minisat', 'kissat'], timeout=1200,
+         tiers=['quick', 'thorough'] if n == 9 else ['thorough'],
+         claim='QueryTwoDTree on ANY point array satisfying the k-d tree invariant (middle element splits by x / y alternately, ties with the split value on either side) and ANY rectangle: the callback is invoked exactly once for every point inside the closed rectangle and never for another one',
+         bounds='%d points (%d tree level%s above the linearly scanned leaves of <= 8 points), all finite doubles |x|<=1e100 for points and rectangle (min<=max not assumed)' % (n, 1 if n < 19 else 2, '' if n < 19 else 's'),
+         targets=['tree2d.h QueryTwoDTree', 'common.h Rect::Contains, Rect::DoesOverlap'])
+    for n in (9, 19)
+] + [
+    dict(name='tree2d_build_n9', harness='c14_tree2d.cpp', entry='h_build', defs={'VF_N': 9}, models=['stdlib.h'],
+         unwind={'auto': True, 'default': 11}, recursion={'default': 4}, backends=['minisat', 'kissat'], timeout=1800, tiers=['thorough'],
+         claim='BuildTwoDTree establishes the invariant the query obligation assumes (so the two compose) and only permutes the points',
+         bounds='9 points on the lattice [-2,2]^2 (many ties with the median); sequential stable_sort (std::stable_sort)',
+         targets=['tree2d.cpp BuildTwoDTree, BuildTwoDTreeImpl', 'parallel.h stable_sort (Seq)'])
+]
+PROPERTIES['C18']['obligations'] += [
+    dict(name='raycast_axis%d' % ax, harness='c18_raycast.cpp', entry='h_raycast', defs={'VF_AXIS': ax, 'VF_R': 2}, real='f16',
+         models=['stdlib.h'], unwind={'default': 14, 'FindCollision': 3, 'realloc_insert|insertion_sort|introsort|RadixTree|RangeEnd|FindSplit': 3}, recursion={'default': 2}, backends=['kissat', 'minisat'], timeout=2400, mem_gb=24, object_bits=12,
+         tiers=['experimental'],
+         claim='Impl::RayCast on a surface triangle (real Collider, Kernel12<false,true>, t filter, sort): every returned hit names the triangle, has 0<=t<=1 and a position on the segment; in general position (no exact 3D or projected coincidence) there is exactly one hit iff the exact integer orientation tests say the segment properly crosses the triangle, and none otherwise - for both directions of travel',
+         bounds='one lattice triangle in [-2,2]^3 (all 6 halfedge numberings, arbitrary finite normals), segment parallel to axis %d with both ends on the lattice line in [-3,3]; IEEE binary16 arithmetic inside the kernels (rationals met here are separated by >= 1/4)' % ax,
+         targets=['boolean3.cpp Impl::RayCast, Kernel12, Kernel11, Kernel02, Shadow01', 'shared.h Intersect, Interpolate, Shadows', 'collider.h Collider, FindCollision'])
+    for ax in (0, 1, 2)]
 PROPERTIES['C10']['obligations'] += [
     dict(name='isconvex_gate_n%d' % n, harness='c10_convex.cpp', entry='h_isconvex', defs={'VF_LEN': n, 'VF_R': 2}, real='f16', models=['stdlib.h'],
          unwind={'default': n + 2}, recursion={'default': 2}, backends=['minisat', 'kissat'], timeout=900, object_bits=12,
